@@ -501,12 +501,10 @@ def exec_alone(arg):
     spec["share_root_with"] = None
     sj = spec.get("store_from")
     if sj is not None and sj < i:
-        # the donor of the store object is constructed (never operated), exactly as in the interleaved run
-        donor = one["actors"][sj]
-        donor["share_root_with"] = None
-        donor["store_from"] = None
-        spec["store_from"] = 0
-        one["actors"] = [donor, spec]
+        # the donor of the store object is constructed (never operated), exactly as in the interleaved run;
+        # a donor may itself have taken its store from an earlier actor (or share a root with one), so the
+        # whole prefix of actors is constructed with its links intact and only actor i is operated
+        one["actors"] = one["actors"][:i + 1]
     else:
         spec["store_from"] = None
         one["actors"] = [spec]
